@@ -207,6 +207,18 @@ def _multistream_mate(names, sizes, rows, cuts):
     return [[int(s) for s in t.mate_position.tolist()] for t in ms.links]
 
 
+def _multistream_keyfunc(names, sizes, mk):
+    """the data spells the contig names differently (a prefix); a key function maps them to the names of the contig list"""
+    from bionumpy.streams.multistream import MultiStream
+    from bionumpy.streams import NpDataclassStream
+    from bionumpy.datatypes import Interval
+    inner = mk("interval")
+    chunks = [Interval(["x_" + str(c) for c in t.chromosome.tolist()], t.start, t.stop) for t in inner]
+    ms = MultiStream(dict(zip(names, sizes)), iv=NpDataclassStream(iter(chunks), dataclass=Interval))
+    ms.iv.set_key_function(lambda name: str(name)[2:])
+    return [[int(s) for s in t.start.tolist()] for t in ms.iv]
+
+
 def _iter_chromosomes_ragged(g, rows, cuts):
     ctx = g.get_genome_context()
     return [[int(s) for s in t.position.tolist()] for t in ctx.iter_chromosomes(_ragged_stream(rows, cuts), _hit_class())]
@@ -364,6 +376,8 @@ def check_vector(v):
             judge("contingency_table", cuts, outcome(_jaccard, genome, [size] * len(genome), lambda cls: _stream(rows, cuts, cls)))
             n += 1
             judge("MultiStream[ragged]", cuts, outcome(_multistream_ragged, genome, [size] * len(genome), rows, cuts))
+            n += 1
+            judge("MultiStream[key function]", cuts, outcome(_multistream_keyfunc, genome, [size] * len(genome), lambda cls: _stream(rows, cuts, cls)))
             n += 1
             judge("MultiStream[grouped on a second contig column]", cuts, outcome(_multistream_mate, genome, [size] * len(genome), rows, cuts))
             if all(r[0] in genome for r in rows):
